@@ -868,6 +868,12 @@ class XsdElement(XsdComponent, ParticleMixin,
                 counter.enabled = False
                 if isinstance(identity, XsdKeyref):
                     assert isinstance(counter, KeyrefCounter)
+                    if isinstance(identity.refer, XsdIdentity) and \
+                            identity.refer not in context.identities:
+                        # The element that declares the referred key never occurred:
+                        # the key references are checked against an empty table.
+                        context.identities[identity.refer] = identity.refer.get_counter(obj)
+                        context.identities[identity.refer].enabled = False
                     for error in counter.iter_errors(context.identities):
                         context.validation_error(validation, self, error, obj)
         elif context.level:
